@@ -74,6 +74,8 @@ pub struct ChitchatNode {
     chitchat_handle: ChitchatHandle,
     members: watch::Receiver<NodeMembership>,
     stop: Arc<AtomicBool>,
+    #[cfg(datacake_verif)]
+    verif_members_tx: watch::Sender<NodeMembership>,
 }
 
 impl ChitchatNode {
@@ -125,6 +127,8 @@ impl ChitchatNode {
             statistics: statistics.clone(),
             members: members_rx,
             stop: Arc::new(Default::default()),
+            #[cfg(datacake_verif)]
+            verif_members_tx: members_tx.clone(),
         };
 
         let initial_members: BTreeMap<crate::NodeId, ClusterMember> =
@@ -193,6 +197,12 @@ impl ChitchatNode {
     /// Return [WatchStream] for monitoring change of node members.
     pub fn member_change_watcher(&self) -> WatchStream<NodeMembership> {
         WatchStream::new(self.members.clone())
+    }
+
+    #[cfg(datacake_verif)]
+    /// Verification hook: publish a membership snapshot as if chitchat had produced it.
+    pub fn verif_set_members(&self, members: NodeMembership) {
+        let _ = self.verif_members_tx.send(members);
     }
 
     /// Returns a handle to the members watcher channel.
